@@ -15,7 +15,7 @@ import numpy as np
 
 from harness import core, learners as L, xlearner as X
 
-MODULES = ["AdaptiveProofs.Props.C10"]
+MODULES = ["AdaptiveProofs.Props.C10", "AdaptiveProofs.Props.C10More"]
 KINDS = ["l1d", "l1d_curv", "l1d_vec", "l1d_tri", "l1d_uni", "lnd2", "lnd3", "l2d", "avg", "avg1d", "seq", "integ",
          "bal:l1d", "bal:seq", "bal:avg", "bal:cycle:l1d", "bal:loss:l1d", "ds:l1d", "ds:seq", "ds:avg", "ds:lnd2"]
 
@@ -90,6 +90,16 @@ def case(arg):
         def fail(cl, det):
             res["fail"] = (cl, f"[{kn}] op {i} {op}: {det}")
             return res
+        if b == "integ" and rng.random() < 0.03:
+            # an in-domain point never suggested by the learner: an abscissa of one of its intervals that has not been handed
+            # out yet (a foreign abscissa is rejected - C07)
+            handed = {X.pend_key(kn, q) for q in r.outstanding}
+            free = sorted(x for x in l.x_mapping if x not in l.data and X.pend_key(kn, x) not in handed)
+            if free:
+                x = free[rng.randrange(len(free))]
+                r.tell(x)
+                r.told_points.append(x)
+                bump("tell_unasked_abscissa")
         act = r.resolve(op)
         if act is None:
             continue
@@ -98,7 +108,11 @@ def case(arg):
                 before = X.pending_keys(kn, l)
                 (pts, imps), = r.ask(act[1], act[2])
                 re = [p for p in pts if X.pend_key(kn, p) in {X.pend_key(kn, q) for q in r.told_points}]
-                if re:
+                if re and b == "integ":
+                    # recorded finding (an abscissa told before it was handed out stays on the stack): counted, the history goes on
+                    res.setdefault("integ_reissue", f"[{kn}] op {i} {op}: ask({act[1]}) handed out {re[:2]} which already has a result")
+                    bump("integ_reissued_told_abscissa")
+                elif re:
                     return fail("ask_reissues_told_sample", f"ask({act[1]}) handed out {re[:2]} which already has a result")
                 if act[2]:
                     now = X.pending_keys(kn, l)
@@ -203,7 +217,7 @@ def _other_value(kn, v):
 
 
 def run(ctx):
-    proof = core.prove(MODULES, extra_targets=["AdaptiveProofs.Examples.Misc"], leanchecker=ctx.thorough)
+    proof = core.prove(MODULES, extra_targets=["AdaptiveProofs.Examples.Misc", "AdaptiveProofs.Examples.C10More"], leanchecker=ctx.thorough)
     args = [(kn, ctx.rng.randrange(1 << 30), ctx.n(35, 70)) for kn in KINDS for _ in range(ctx.n(14, 300))]
     results = core.pmap(case, args)
     failures, dist, aborted, stats = [], {}, {}, {}
@@ -213,6 +227,9 @@ def run(ctx):
             stats[k] = stats.get(k, 0) + v
         if r.get("aborted"):
             aborted[r["kind"] + ":" + r["aborted"]] = aborted.get(r["kind"] + ":" + r["aborted"], 0) + 1
+        if r.get("integ_reissue"):
+            failures.append({"clause": "ask_reissues_told_sample", "signature": "C10.ask_reissues_told_sample.integ",
+                             "detail": r["integ_reissue"], "replay": {"kind": r["kind"], "seed": r["seed"], "nops": r["nops"]}})
         if r["fail"]:
             cl, det = r["fail"]
             sig = f"C10.{cl}.{r['kind']}"
@@ -235,7 +252,12 @@ def run(ctx):
         assumptions=["Learner2D is exercised since its NumPy 2 / SciPy 1.15 breakage was repaired (fix: commits)",
                      "AverageLearner1D: data holds the running mean per abscissa, so only keys, counts and pending bookkeeping are compared"],
         extra={"kinds": dist, "ops": stats, "histories_aborted_by_exception": aborted},
-        partial=["LearnerND / IntegratorLearner / AverageLearner1D have no Lean model of this bookkeeping here: shadow oracle only"],
+        partial=["LearnerND / IntegratorLearner / complete AverageLearner1D (Props/C10More.lean, on the models of C04 / C07 / C16): every clause "
+                 "is proved in the form that is true of the model; where a clause is false of model and code the counterexample is a "
+                 "kernel-checked `example` next to it and the theorem carries the explicit hypothesis (LearnerND: no operation marks a known "
+                 "point pending; integrator: the returned abscissa had no value; AverageLearner1D: told => not pending per operation only, "
+                 "ask itself re-issues evaluated seeds - recorded finding)",
+                 "Learner2D has no Lean model: shadow oracle only"],
     )
 
 
